@@ -197,7 +197,7 @@ pub fn video_frame(cfg: &CfgGene, g: &VGene, idx: usize, first: bool, fc: &mut F
             let fr = AnnexBFrame {
                 nals,
                 lead_zeros: if sh & 64 != 0 { 1 + (sh & 1) } else { 0 },
-                trail_zeros: if sh & 128 != 0 { 1 + ((sh >> 1) & 1) } else { 0 },
+                trail_zeros: if sh & 128 != 0 { 1 + ((sh >> 1) & 1) } else if sh % 13 == 5 { 100 + (sh & 1) } else { 0 },
             };
             let (bytes, units) = fr.build(hevc, tag);
             if first {
